@@ -270,6 +270,22 @@ func VH_kwNear(ki int, mode int) {
 		word[verifChoice(len(kw))] = verifNondetRune()
 	case 1:
 		word = []rune(norm.NFD.String(string(kw)))
+	case 3:
+		// the exact keyword with one more arbitrary code point before the arbitrary last one:
+		// a longer word that merely begins with a keyword is an identifier
+		word = append(word, kw...)
+		word = append(word, verifNondetRune())
+	case 4:
+		// the exact keyword followed by one or two more word characters from a small pool, then
+		// a blank: concrete text throughout, for scanners that work on the bytes of the word
+		pool := []rune{'x', '_', '7', '\u0995', '\u09e7', '\u09be', '\u09cd'}
+		word = append(word, kw...)
+		word = append(word, pool[verifChoice(len(pool))])
+		if verifChoice(2) == 1 {
+			word = append(word, pool[verifChoice(len(pool))])
+		}
+		stepCheck(append(word, ' '), 0)
+		return
 	default:
 		word = []rune(norm.NFC.String(string(kw)))
 	}
@@ -676,5 +692,49 @@ func VH_fraction(two int) {
 	if len(s.tokens) == 1 {
 		v, isF := s.tokens[0].Literal.(float64)
 		verifAssert("literal-value-is-parsefloat-of-transliterated-lexeme", isF && v == want)
+	}
+}
+
+// numberContexts: text that stands before a numeral and must not change what the numeral means:
+// strings holding comment openers, comments holding quotes, division signs, a lone slash.
+var numberContexts = []string{
+	"\"a//b\" ", "\"/*\" ", "// \"c\n", "/* \" */ ", "\"x\" // \"\n", "x / y ; ", "\"\u09e7//\" ", "x /* \u09e7 */ / ", "\"a\" \"//\" ",
+}
+
+// VH_numberInContext (C10): a numeral of n digits of either script, scanned as part of a whole
+// program after each of numberContexts, denotes the same number as on its own: the tokens are
+// those of the context alone, then one NUMBER whose value is the digits' value.
+func VH_numberInContext(ctx int, n int) {
+	verifOption("parsefloat-exact-integers")
+	verifOption("summarise-transliteration")
+	pre := []rune(numberContexts[ctx])
+	utils.HadError = false
+	base := NewScanner(pre).ScanTokens()
+	baseErr := utils.HadError
+	src := append([]rune{}, pre...)
+	ascii := make([]rune, n)
+	for i := 0; i < n; i++ {
+		d := verifNondetRune()
+		verifAssume(sDigit(d))
+		src = append(src, d)
+		ascii[i] = sDigitValue(d)
+	}
+	src = append(src, ' ')
+	utils.HadError = false
+	toks := NewScanner(src).ScanTokens()
+	want, err := strconv.ParseFloat(string(ascii), 64)
+	verifAssert("integer-literal-parses", err == nil)
+	verifAssert("context-diagnostics-unchanged", utils.HadError == baseErr)
+	verifAssert("context-tokens-then-one-number", len(toks) == len(base)+1)
+	if len(toks) == len(base)+1 && len(toks) >= 2 {
+		for i := 0; i+1 < len(base); i++ {
+			verifAssert("context-tokens-unchanged", toks[i].Type == base[i].Type && toks[i].Lexeme == base[i].Lexeme)
+		}
+		num := toks[len(toks)-2]
+		v, isF := num.Literal.(float64)
+		verifAssert("numeral-after-context-is-a-number", num.Type == token.NUMBER && isF)
+		if isF {
+			verifAssert("numeral-after-context-denotes-its-digits-value", v == want)
+		}
 	}
 }
